@@ -426,7 +426,7 @@ macro_rules! mirror_common {
         fn export_dddmp(mr: &Self::ManagerRef, path: &str, funcs: &[&Self], names: Option<&[String]>, v3: bool) -> Result<(), String> {
             let file = std::fs::File::create(path).map_err(|e| e.to_string())?;
             let set = oxidd_dump::dddmp::ExportSettings::default().ascii();
-            let set = set.version(if v3 { oxidd_dump::dddmp::DDDMPVersion::V3_0 } else { oxidd_dump::dddmp::DDDMPVersion::V2_0 }).diagram_name("capi");
+            let set = set.version(if v3 { oxidd_dump::dddmp::DDDMPVersion::V3_0 } else { oxidd_dump::dddmp::DDDMPVersion::V2_0 }).diagram_name("capi").strict(false);
             mr.with_manager_shared(|m| match names {
                 None => set.export(file, m, funcs.iter().copied()),
                 Some(ns) => set.export_with_names(file, m, funcs.iter().copied().zip(ns.iter())),
@@ -809,6 +809,8 @@ struct Real {
     substs: BTreeMap<String, SubstObj>,
     /// capacity limited manager: results may be INVALID at any time (suite `oom`)
     tiny: bool,
+    /// `inner_node_capacity = 0`, documented as "no limit"
+    cap0: bool,
     ended: bool,
     file_no: u64,
 }
@@ -825,7 +827,7 @@ fn complement_tree(s: &str) -> String {
 
 impl Real {
     fn new(ld: std::sync::Arc<Loaded>) -> Self {
-        Real { ld, kind: 0, cm: None, mrefs: 0, rs: None, h: BTreeMap::new(), substs: BTreeMap::new(), tiny: false, ended: false, file_no: 0 }
+        Real { ld, kind: 0, cm: None, mrefs: 0, rs: None, h: BTreeMap::new(), substs: BTreeMap::new(), tiny: false, cap0: false, ended: false, file_no: 0 }
     }
     fn api(&self) -> &Api {
         &self.ld.apis[self.kind]
@@ -960,6 +962,7 @@ impl Real {
         self.rs = None;
         self.ended = false;
         self.tiny = false;
+        self.cap0 = false;
     }
 
     /// bind `name` to the C result `c` (owned if valid) and the mirror result `r`
@@ -967,7 +970,9 @@ impl Real {
         if !c.ok() {
             if let Some(r) = r {
                 self.rs.as_mut().unwrap().free(r);
-                if !args_invalid && !self.tiny {
+                if !args_invalid && self.cap0 {
+                    rep.fail("capi-cap0-not-unlimited", &format!("`{line}` returned an invalid handle in a manager created with inner_node_capacity = 0, which is documented as \"no limit\""));
+                } else if !args_invalid && !self.tiny {
                     rep.fail("capi-unexpected-invalid", &format!("`{line}` returned an invalid handle although all arguments are valid and the manager is far from full"));
                 }
             }
@@ -1047,6 +1052,10 @@ impl Real {
             let nr = self.rs.as_ref().unwrap().num_inner();
             if !self.tiny {
                 rep.count(if nc == nr { "nn_equal_mirror" } else { "nn_differs_mirror" });
+                if nc != nr {
+                    // same calls, same algorithms, one worker thread each: the stores agree
+                    rep.fail("capi-node-count-differs", &format!("after `{line}` the C side manager holds {nc} inner nodes, the Rust side manager {nr}"));
+                }
             }
             let _ = nn_before;
         }
@@ -1068,6 +1077,7 @@ impl Real {
         let n: u32 = kv("vars").and_then(|x| x.parse().ok()).unwrap_or(0);
         let cap: usize = kv("cap").and_then(|x| x.parse().ok()).unwrap_or(1 << 16);
         self.tiny = cap < 1 << 12;
+        self.cap0 = cap == 0;
         let api = &self.ld.apis[self.kind];
         let cm = unsafe { (api.manager_new)(cap, 1024, 1) };
         if cm.p.is_null() {
@@ -1837,8 +1847,10 @@ impl Real {
             _ => return None,
         };
         let _ = nn0;
-        let _ = std::fs::remove_file(&cpath);
-        let _ = std::fs::remove_file(&rpath);
+        if rep.fails.is_empty() || std::env::var("C19_KEEP").is_err() {
+            let _ = std::fs::remove_file(&cpath);
+            let _ = std::fs::remove_file(&rpath);
+        }
         self.check_args(rep, line, &hs);
         Some(out)
     }
